@@ -12,6 +12,7 @@ import random
 import re
 import types
 
+from ..impl import c04_hist as hist
 from ..impl import valjson as vj
 from ..translate import c04 as tr
 
@@ -240,6 +241,10 @@ def gen_cases(rng, tier):
     n_ref = 120 if tier == "quick" else 3000
     for i in range(n_ref):
         cases.append(g_ref_case(rng))
+    # multi-event histories: the statement's parameters are expressions over state that changes while the head waits
+    n_hist = 700 if tier == "quick" else 12000
+    for i in range(n_hist):
+        cases.append(hist.g_case(rng))
     return cases
 
 
@@ -376,6 +381,8 @@ def run_impl(case):
         return run_e2e(case)
     if case["kind"] == "e2e_ref":
         return run_e2e_ref(case)
+    if case["kind"] == "e2e_hist":
+        return hist.run(case, sm, Recorder)
     raise ValueError(case["kind"])
 
 
@@ -625,8 +632,12 @@ def run_e2e(case):
 # ----------------------------------------------------------------------------- model
 
 def model_requests(case, obs):
-    if case["kind"] == "e2e_ref":
+    if case["kind"] in ("e2e_ref", "e2e_hist"):
         reqs = []
+        if case["kind"] == "e2e_hist":
+            h = hist.model_request(case, obs)
+            if h is not None:
+                reqs.append(h)
         for c in obs.get("calls", []):
             if c["fn"] == "gefe":
                 reqs.append({"m": "C04.stmt", "stmt": c["stmt"]})
@@ -673,6 +684,15 @@ def compare_calls(obs, mouts):
 
 def compare(case, obs, mouts):
     if case["kind"] == "e2e_ref":
+        return compare_calls(obs, mouts)
+    if case["kind"] == "e2e_hist":
+        if "skip" in obs:
+            return None
+        if hist.model_request(case, obs) is not None:
+            d = hist.compare_hist(case, obs, mouts[0])
+            if d:
+                return d
+            mouts = mouts[1:]
         return compare_calls(obs, mouts)
     m = mouts[0]
     if case["kind"] in ("fn", "e2e"):
@@ -823,6 +843,8 @@ def oracle_ref(case, obs):
 def oracle(case, obs):
     if case["kind"] == "e2e_ref":
         return oracle_ref(case, obs)
+    if case["kind"] == "e2e_hist":
+        return hist.oracle(case, obs)
     if case["kind"] in ("fn", "e2e"):
         a, r = vj.dec(obs["arg_seen"]), vj.dec(obs["ref_seen"])
         if case["kind"] == "e2e":
@@ -874,7 +896,7 @@ def oracle(case, obs):
 
 
 def signature(case, obs, msg):
-    if case["kind"] == "e2e_ref":
+    if case["kind"] in ("e2e_ref", "e2e_hist"):
         return None
     try:
         if case["kind"] == "event":
@@ -891,6 +913,8 @@ def signature(case, obs, msg):
 def nontrivial(case, obs):
     if case["kind"] == "e2e_ref":
         return True
+    if case["kind"] == "e2e_hist":
+        return "skip" not in obs and any(s["op"] == "ev" for s in case["steps"])
     r = case["ref"] if case["kind"] != "event" else {"d": case["ref"]["args"]}
     s = json.dumps(r)
     structured = any(t in s for t in ('"l"', '"S"', '"d"', '"r"', '"c"'))
@@ -901,6 +925,8 @@ def nontrivial(case, obs):
 
 def tags(case, obs):
     t = ["kind:" + case["kind"]]
+    if case["kind"] == "e2e_hist":
+        return t + hist.tags(case, obs) + (["rec-skipped"] if obs.get("calls_skipped") else [])
     if case["kind"] == "e2e_ref":
         forms = sorted(set("rec:" + (c["stmt"]["form"] if c["fn"] == "gefe" else c["fn"] + "-" + c["ev"]["kind"] + ("/" + c["ref"]["kind"] if c["fn"] == "ms" else "")) for c in obs.get("calls", [])))
         return t + ["ref:" + case["sub"], "ref-hits:%d" % sum(obs.get("hits", []))] + forms + (["rec-skipped"] if obs.get("calls_skipped") else [])
@@ -940,6 +966,9 @@ def _sub(v):
 
 
 def shrink(case):
+    if case["kind"] == "e2e_hist":
+        yield from hist.shrink(case)
+        return
     if case["kind"] == "e2e_ref":
         for i in range(len(case["events"])):
             if len(case["events"]) > 1:
